@@ -371,6 +371,7 @@ pub fn record(scenarios: &str, output: &str) {
             "C04" => sc["entry"].as_str().unwrap().contains("continuing"),
             "C06" => sc["entry"].as_str().unwrap().contains("5dof") || sc["dof"] == 5,
             "C08" => sc["limits"] != "none",
+            "C16" => sc["stack"].as_str().unwrap().contains("pgram"),
             _ => true,
         };
         if !keep { continue; }
